@@ -162,3 +162,9 @@ trait CapAtImpl<'data>: Buffer<'data> {
     where
         Self: Sized;
 }
+
+#[cfg(kani)]
+mod verif_kani {
+    use super::*;
+    include!(concat!(env!("LIBTW2_VERIF_HARNESS"), "/buffer_lib.rs"));
+}
